@@ -74,7 +74,7 @@ def gen(seed, tier):
     else:
         dscript.append([trig])
     drivers = [{"id": "d0", "script": dscript}]
-    if rng.random() < 0.35:
+    if rng.random() < 0.5:
         # adoptions racing with the termination itself: a second thread keeps handing coroutine payloads to the
         # runtime from the moment the trigger fires until well after the run call has ended
         marker = {"sigint": "sigint-sent", "stop": "stop-call", "shutdown": "shutdown-call"}.get(trig, "start:trig")
@@ -84,6 +84,12 @@ def gen(seed, tier):
             payloads.append({"id": pid, "flavour": rng.choice(["asyncio", "asyncio", "trio"]), "via": "adopt", "steps": [["hb", 0.05, None]], "cleanup_sync": rng.choice([0, 1, 2]), "late": True})
             lscript += [["sleep", rng.choice([0.0, 0.0, 0.001, 0.01, 0.05, 0.1, 0.2])], ["adopt", pid]]
         drivers.append({"id": "dl", "script": lscript})
+        if rng.random() < 0.6:
+            # targeted alignment (DESIGN 3.5): a submitting thread is descheduled inside the registration path
+            # right after the trigger and resumes only when the runtime's main coroutine winds down, so that its
+            # hand-over lands in the last instants of the run call
+            # (any line of the registration path; resumed as soon as the chosen function next makes progress, or a little later)
+            knobs["stalls"] = [{"func": "register_payload", "nth": rng.randint(1, 14), "dur": 3.0, "after": True, "until": rng.choice(["_manage_runners", "_aclose_runners", "run"]), "k": rng.choice([1, 1, 2, 4])}]
     knobs["horizon"] = 6.0 + knobs["accept_delay"] + 5.0 + sum(p.get("cleanup_async", 0) for p in payloads) + 3.0
     rng.shuffle(payloads)
     return {"prop": "C02", "seed": seed, "knobs": knobs, "payloads": payloads, "drivers": drivers, "trigger": trig, "grace": rng.choice([0.5, 2.5])}
